@@ -10,6 +10,7 @@ import (
 	"github.com/sahandsafizadeh/qeep/component/layers"
 	"github.com/sahandsafizadeh/qeep/component/layers/activations"
 	"github.com/sahandsafizadeh/qeep/component/losses"
+	"github.com/sahandsafizadeh/qeep/component/optimizers"
 	"github.com/sahandsafizadeh/qeep/tensor"
 )
 
@@ -22,6 +23,7 @@ type Par struct {
 	K     *Rat     `json:"k,omitempty"`
 	Shape []int    `json:"shape,omitempty"`
 	Index [][2]int `json:"index,omitempty"`
+	Nil   bool     `json:"nilconf,omitempty"` // pass a nil config (defaults) to the component
 }
 
 type Rat struct {
@@ -269,7 +271,7 @@ func Apply(op string, par Par, args []Tensor) (Tensor, error) {
 		return activations.NewRelu().Forward(a)
 	case "leakyrelu":
 		var conf *activations.LeakyReluConfig
-		if par.K != nil {
+		if par.K != nil && !par.Nil {
 			conf = &activations.LeakyReluConfig{M: par.K.Float()}
 		}
 		return activations.NewLeakyRelu(conf).Forward(a)
@@ -279,7 +281,7 @@ func Apply(op string, par Par, args []Tensor) (Tensor, error) {
 		return activations.NewTanh().Forward(a)
 	case "softmax":
 		var conf *activations.SoftmaxConfig
-		if par.Dim != 0 || par.Shape == nil { // Shape non-nil marks "nil config" (dim 0)
+		if !par.Nil {
 			conf = &activations.SoftmaxConfig{Dim: par.Dim}
 		}
 		l, err := activations.NewSoftmax(conf)
@@ -293,11 +295,26 @@ func Apply(op string, par Par, args []Tensor) (Tensor, error) {
 		return losses.NewBCE().Compute(a, b)
 	case "ce":
 		return losses.NewCE().Compute(a, b)
+	case "sgd":
+		// args: the tensor to update (it must hold a gradient); result: the tensor behind the pointer afterwards
+		var conf *optimizers.SGDConfig
+		if !par.Nil {
+			conf = &optimizers.SGDConfig{LearningRate: par.K.Float()}
+		}
+		w := a
+		if err := optimizers.NewSGD(conf).Update(&w); err != nil {
+			return nil, err
+		}
+		return w, nil
 	case "fc":
 		// args: W, B, x; the layer is constructed with default initializers and its
 		// parameters replaced through the Weights() pointers
 		w, bias, x := args[0], args[1], args[2]
-		fc, err := layers.NewFC(&layers.FCConfig{Inputs: x.Shape()[len(x.Shape())-1], Outputs: w.Shape()[0]})
+		feat := 1
+		if sh := x.Shape(); len(sh) > 0 {
+			feat = sh[len(sh)-1]
+		}
+		fc, err := layers.NewFC(&layers.FCConfig{Inputs: feat, Outputs: w.Shape()[0]})
 		if err != nil {
 			return nil, err
 		}
